@@ -20,7 +20,8 @@ func init() {
 			"C17.2 a handler returns ok=true only on the edge equivalent to stamp ≥ now — operator and operand order normalised to ¬(int64(stamp) < time.Now().Unix()), whole seconds on both sides — with stamp the Atoi of the leading field of the username on the Atoi-success edge; every other return has ok=false; " +
 			"C17.3 the generators stamp time.Now().Add(duration).Unix() formatted in base 10 as (the leading field of) the username; " +
 			"C17.4 GenerateAuthKey hashes username:realm:password of its parameters as given (no normalisation of one side's inputs); " +
-			"C17.5 the derived password depends on both the username and the shared secret on every success return and on no state outside the parameters, except a memo that is looked up under a key made of both.",
+			"C17.5 the derived password depends on both the username and the shared secret on every success return and on no state outside the parameters, except a memo that is looked up under a key made of both; " +
+			"C17.6 the key a handler returns owns its bytes: it is GenerateAuthKey's result or written into fresh storage, never into a pooled or shared buffer that the next authentication overwrites.",
 		NotCovered: "forgery resistance of HMAC-SHA1/MD5; the clock; usernames containing further colons beyond what the derivation over the full username already binds.",
 		Run:        runC17,
 	})
@@ -115,6 +116,7 @@ func runC17(c *Ctx) {
 
 	ruleAuthKeyPure(c, "C17.4")
 	rulePasswordPure(c, "C17.5")
+	ruleKeyOwnsItsBytes(c, "C17.6")
 
 	// ---- handlers
 	c.Rule("C17.1", "handlers: the password is result #0 of longTermCredentials(ra.Username, sharedSecret) — the full presented username and the captured secret of the enclosing constructor — and the key returned with ok=true is GenerateAuthKey(ra.Username, ra.Realm, that password)", 2)
@@ -734,4 +736,97 @@ func (w *World) lookupKeyDependsOn(fn *ssa.Function, lk *ssa.Lookup, p *ssa.Para
 		}
 	})
 	return found
+}
+
+// ruleKeyOwnsItsBytes (C17.6): the server keeps the key a handler returned (to check
+// MESSAGE-INTEGRITY, to sign the response). It is "the long-term key of (username, realm,
+// password)" only as long as nobody rewrites its bytes: a key handed out from a buffer that
+// goes back into a pool, or from a field, is overwritten by the next authentication.
+func ruleKeyOwnsItsBytes(c *Ctx, rule string) {
+	w := c.W
+	c.Rule(rule, "the key result of the handler closures of NewLongTermAuthHandler / LongTermTURNRESTAuthHandler is, on every return, nil, the result of GenerateAuthKey, or bytes in storage made for this call (make / hash.Sum(nil) / Sum into a fresh slice / a copy) — through module helpers", 2)
+	genKey := w.Func("turn", "", "GenerateAuthKey")
+	var owned func(v ssa.Value, d int) (bool, string)
+	owned = func(v ssa.Value, d int) (bool, string) {
+		v = stripIface(w.resolveLoad(v))
+		if isNilConst(v) {
+			return true, ""
+		}
+		if d > 5 {
+			return false, "too deep"
+		}
+		switch x := v.(type) {
+		case *ssa.MakeSlice:
+			return true, ""
+		case *ssa.Slice:
+			return owned(x.X, d+1)
+		case *ssa.Alloc:
+			return true, "" // a local array
+		case *ssa.Phi:
+			for _, e := range x.Edges {
+				if ok, why := owned(e, d+1); !ok {
+					return false, why
+				}
+			}
+			return true, ""
+		case *ssa.Call, *ssa.Extract:
+			call, idx := callOf(v)
+			if call == nil {
+				return false, w.desc(v)
+			}
+			if call.Call.StaticCallee() == genKey {
+				return true, ""
+			}
+			if call.Call.IsInvoke() && call.Call.Method.Name() == "Sum" && len(call.Call.Args) == 1 {
+				return owned(call.Call.Args[0], d+1) // Sum(b) appends to b
+			}
+			if w.freshBytes(v, 0) {
+				return true, ""
+			}
+			if h := call.Call.StaticCallee(); h != nil && w.IsMod[h] && len(h.Blocks) > 0 {
+				if idx < 0 {
+					idx = 0
+				}
+				for _, r := range returnsOf(h) {
+					if idx < len(r.Results) {
+						if ok, why := owned(r.Results[idx], d+1); !ok {
+							return false, why
+						}
+					}
+				}
+				return true, ""
+			}
+			return false, "the result of " + w.desc(v)
+		case *ssa.UnOp:
+			if _, f, isL := fieldLoad(x); isL {
+				return false, "field " + f.Name() + " (storage that outlives the call)"
+			}
+		}
+		return false, w.desc(v)
+	}
+	for _, cn := range []string{"NewLongTermAuthHandler", "LongTermTURNRESTAuthHandler"} {
+		ctor := w.Func("turn", "", cn)
+		c.Anchor(rule, cn)
+		n := 0
+		bad := ""
+		for _, fn := range w.reachableHelpers(ctor) {
+			if fn.Parent() == nil || fn.Signature.Results().Len() != 3 {
+				continue
+			}
+			for _, r := range returnsOf(fn) {
+				n++
+				if ok, why := owned(r.Results[1], 0); !ok {
+					bad = "the key returned at " + w.instrPos(r) + " lives in " + why
+				}
+			}
+		}
+		switch {
+		case n == 0:
+			c.Bad(rule, fname(ctor), "key bytes", w.pos(ctor.Pos()), "no handler closure with a key result found: anchor gone")
+		case bad != "":
+			c.Bad(rule, fname(ctor), "key bytes", w.pos(ctor.Pos()), bad+": the next authentication through this handler rewrites it while the server still uses it — it is then no longer the long-term key of its (username, realm, password)")
+		default:
+			c.OK(rule, fname(ctor), "key bytes", w.pos(ctor.Pos()), fmt.Sprintf("%d returns: the key owns its bytes", n))
+		}
+	}
 }
